@@ -75,11 +75,11 @@ def check_result(got, exp, name, what, strict, **info):
     rl.check_canonical(x, len(e), strict and name not in INEXACT, what, **info)
 
 
-def unchanged(x, before, what):
+def unchanged(x, before, what, strict=True):
     r = lib(lambda: rl.decode(x))
     if not r.ok or r.value.dtype != before.dtype or not arrays_equal(r.value, before):
         raise Violation(what + ":operand-modified", expected=jsonable(before), got=r.brief())
-    rl.check_canonical(x, len(before), True, what + "-operand")
+    rl.check_canonical(x, len(before), strict, what + "-operand")
 
 
 def body_binary(case, ctx):
@@ -133,8 +133,27 @@ def body_reduce(case, ctx):
     x = rl.encode(a)
     da = rl.decode(x)
     f, spell = case["f"], case["spell"]
-    ctx.label("f:" + f, "spell:" + spell, "dta:" + case["dta"])
-    ctx.nt(rl.n_runs(da) >= 2)
+    # reductions are also taken of *derived* arrays, whose neighbouring runs may carry equal values
+    d = case.get("derive")
+    with np.errstate(all="ignore"):
+        if d == "gt":
+            x, da = x > case["va"][0], da > np.asarray(case["va"][0], dtype=da.dtype)
+        elif d == "mul0":
+            x, da = x * 0, da * 0
+        elif d == "self-concat":
+            x, da = np.concatenate([x, x]), np.concatenate([da, da])
+        elif d == "abs":
+            x, da = abs(x), abs(da)
+        elif d == "slice":
+            x, da = x[::2], da[::2]
+    if d and d != "none":
+        got_d = lib(lambda: rl.decode(x))
+        if not got_d.ok or not arrays_equal(got_d.value, da):
+            ctx.label("derive-differs-not-this-subcheck")
+            return
+        da = got_d.value
+    ctx.label("f:" + f, "spell:" + spell, "dta:" + case["dta"], "derive:" + str(d))
+    ctx.nt(rl.n_runs(da) >= 2 or bool(d and d != "none"))
     with np.errstate(all="ignore"):
         exp = getattr(np, f)(da)
         got = lib(lambda: getattr(np, f)(x) if spell == "np" else getattr(x, f)())
@@ -152,8 +171,8 @@ def body_reduce(case, ctx):
         ok = same_scalar(float(ge) if isinstance(ge, (int, float, bool)) else ge, float(ee) if isinstance(ee, (int, float, bool)) else ee) \
             and (not isinstance(ee, (int, bool)) or int(ge) == int(ee))
     if not ok:
-        raise Violation("reduce:value", f=f, expected=jsonable(ee), got=jsonable(ge))
-    unchanged(x, da, "reduce-a")
+        raise Violation("reduce:value", f=f, expected=jsonable(ee), got=jsonable(ge), derive=d)
+    unchanged(x, da, "reduce-a", strict=not (d and d != "none"))   # derived operands may have equal neighbouring runs
 
 
 def body_hist(case, ctx):
@@ -256,7 +275,13 @@ def reduce_case(draw, tier):
     # magnitudes keep every partial sum exactly representable in the operand's own dtype (numpy sums float32 in float32)
     mag = (256 if dta.startswith("float") else 2**40) if f in ("sum", "mean") else None
     ca, va = draw(operand(tier, dta, n, mag=mag))
-    return {"n": n, "dta": dta, "ca": ca, "va": va, "f": f, "spell": "method" if f == "max" else draw(st.sampled_from(["np", "method"]))}
+    derive = draw(st.sampled_from(["none", "none", "gt", "mul0", "self-concat", "abs", "slice"]))
+    if dta == "bool" and derive in ("abs",):
+        derive = "none"
+    if dta.startswith("uint") and derive == "abs":
+        derive = "none"
+    return {"n": n, "dta": dta, "ca": ca, "va": va, "f": f, "spell": "method" if f == "max" else draw(st.sampled_from(["np", "method"])),
+            "derive": derive}
 
 
 @st.composite
